@@ -65,7 +65,7 @@ def tableRow : Fld → Option Gen.W
   | .cmean => some ⟨"Lognormal", "_normal", .selfField, "self._Gaussian", "mean", "assign"⟩
   | .ccov => some ⟨"Lognormal", "_normal", .selfField, "self._Gaussian", "cov", "assign"⟩
   | .syncName => some ⟨"RegularizedGaussian", "gaussian", .selfField, "self._gaussian", "_name", "assign"⟩
-  | .cval => some ⟨"JointDistribution", "_add_constants_to_density", .param, "density", "_constant", "aug"⟩
+  | .cval => some ⟨"JointDistribution", "_add_constants_to_density", .param, "<param>", "_constant", "aug"⟩
   | _ => none
 
 /-- the row (class, method, attribute) of the AST-derived write table that a write of attribute
